@@ -450,6 +450,49 @@ def strip(c):
             strip(v)
 
 
+def do_one_run(rec, spy, rng, run):
+    ctx = Ctx(rec)
+    spy.log = []
+    draws_before = rng.pos
+    if run["kind"] == "record":
+        (rec.enable_recording if run["enabled"] else rec.disable_recording)()
+        spy.save_fails = run.get("save_fails", False)
+        call = build_operation(ctx, run["op"], run["prm"])
+        try:
+            r = call()
+            o = {"o": "val", "v": from_py(r)}
+        except BaseException as ex:
+            o = outcome_of_exc(ex)
+        ob = {"outcome": o, "pbouts": [], "recouts": []}
+    else:
+        (rec.enable_recording if run.get("enabled") else rec.disable_recording)()
+        t = run["target"]
+        rid = spy.ids[t] if t < len(spy.ids) else "Nope/0000"
+        pf = run["pf"]
+        if pf["kind"] == "op":
+            call = build_operation(ctx, pf["op"], None)
+
+            def playback_function(recording):
+                call()
+        else:
+            def playback_function(recording):
+                raise EXC[pf["ty"]]()
+        try:
+            pb = rec.play(rid, playback_function)
+            ob = {"outcome": {"o": "val", "v": {"t": "none"}},
+                  "pbouts": datum_list((x.key, x.value) for x in pb.playback_outputs),
+                  "recouts": datum_list((x.key, x.value) for x in pb.recorded_outputs)}
+        except BaseException as ex:
+            ob = {"outcome": outcome_of_exc(ex), "pbouts": [], "recouts": []}
+    ob["trace"] = ctx.trace
+    ob["cass"] = spy.log
+    ob["state"] = state_of(rec)
+    ob["identity_violations"] = ctx.identity_violations
+    ob["draws_used"] = rng.pos - draws_before
+    strip(run)
+    return ob
+
+
 def run_history(case):
     inner, cleanup = make_cassette(case.get("cassette", "memory"))
     spy = Spy(inner)
@@ -457,51 +500,25 @@ def run_history(case):
     rng = ScriptedRandom(case.get("draws", []))
     rec._random = rng
     out = []
+    res = {"runs": out}
     try:
-        for run in case["runs"]:
-            ctx = Ctx(rec)
-            spy.log = []
-            draws_before = rng.pos
-            if run["kind"] == "record":
-                (rec.enable_recording if run["enabled"] else rec.disable_recording)()
-                spy.save_fails = run.get("save_fails", False)
-                call = build_operation(ctx, run["op"], run["prm"])
-                try:
-                    r = call()
-                    o = {"o": "val", "v": from_py(r)}
-                except BaseException as ex:
-                    o = outcome_of_exc(ex)
-                ob = {"outcome": o, "pbouts": [], "recouts": []}
-            else:
-                (rec.enable_recording if run.get("enabled") else rec.disable_recording)()
-                t = run["target"]
-                rid = spy.ids[t] if t < len(spy.ids) else "Nope/0000"
-                pf = run["pf"]
-                if pf["kind"] == "op":
-                    call = build_operation(ctx, pf["op"], None)
-
-                    def playback_function(recording):
-                        call()
-                else:
-                    def playback_function(recording):
-                        raise EXC[pf["ty"]]()
-                try:
-                    pb = rec.play(rid, playback_function)
-                    ob = {"outcome": {"o": "val", "v": {"t": "none"}},
-                          "pbouts": datum_list((x.key, x.value) for x in pb.playback_outputs),
-                          "recouts": datum_list((x.key, x.value) for x in pb.recorded_outputs)}
-                except BaseException as ex:
-                    ob = {"outcome": outcome_of_exc(ex), "pbouts": [], "recouts": []}
-            ob["trace"] = ctx.trace
-            ob["cass"] = spy.log
-            ob["state"] = state_of(rec)
-            ob["identity_violations"] = ctx.identity_violations
-            ob["draws_used"] = rng.pos - draws_before
-            out.append(ob)
-            strip(run)
+        runs = case["runs"]
+        for k, run in enumerate(runs):
+            if case.get("probe_fresh") and k == len(runs) - 1:
+                # C09: the same run on a FRESH recorder over the same cassette contents and draw position, first on a
+                # deep copy of the cassette state so that the history's own last run still sees the same world
+                import copy
+                spy2 = copy.deepcopy(spy) if case.get("cassette", "memory") == "memory" else None
+                if spy2 is not None:
+                    rec2 = TapeRecorder(spy2)
+                    rng2 = ScriptedRandom(case.get("draws", []))
+                    rng2.pos = rng.pos
+                    rec2._random = rng2
+                    res["fresh_probe"] = do_one_run(rec2, spy2, rng2, copy.deepcopy(run))
+            out.append(do_one_run(rec, spy, rng, run))
     finally:
         cleanup()
-    return {"runs": out}
+    return res
 
 
 if __name__ == '__main__':
